@@ -2,6 +2,8 @@
 // package b with different fields.
 package a
 
+import "time"
+
 type Inner struct {
 	N int
 	S string
@@ -77,4 +79,32 @@ type Wrapper struct {
 type EmbedsDeep struct {
 	Wrapper
 	Z int
+}
+
+// Overlap: the written key of one field equals the Go name (or its lower-cased form) of another.
+type Overlap struct {
+	Name  string  `json:"title"`
+	Title *string `json:"subtitle"`
+	Sub   any     `json:"name"`
+}
+
+type OverlapBase struct {
+	ID string `json:"id"`
+}
+
+// OverlapEmb: an embedded struct's key collides with the lower-cased name of an outer field.
+type OverlapEmb struct {
+	OverlapBase
+	Id  *int64 `json:"item_id"`
+	Ptr *Inner `json:"n"`
+}
+
+// Times holds time values in every position.
+type Times struct {
+	At     time.Time
+	Seen   []time.Time
+	Window [2]time.Time
+	ByName map[string]time.Time
+	PT     *time.Time
+	N      int
 }
